@@ -224,7 +224,8 @@ func (f *StreamForwarder) forwardAcks(wg *sync.WaitGroup) {
 		defer f.logger.Info("proxyStreamForwarder forwardAck finished")
 		f.shutdownChan.Shutdown()
 		var err error
-		closeSent := make(chan struct{})
+		// Buffered so that the helper goroutine can finish even if the timeout below wins
+		closeSent := make(chan struct{}, 1)
 		go func() {
 			err = f.sourceStreamClient.CloseSend()
 			closeSent <- struct{}{}
